@@ -55,7 +55,7 @@ MUTS = [
  ("c19-worker-drops-failures", ["C19"], sub("cmd/minify/main.go", "\tfor task := range chanTasks {\n\t\tif ok := minify(task); !ok {\n\t\t\tfails++\n\t\t}\n\t}\n\tchanFails <- fails\n", "\tfor task := range chanTasks {\n\t\tminify(task)\n\t}\n\tchanFails <- fails\n")),
  # C20
  ("c20-bak-removed-before-close", ["C20", "C19"], sub("cmd/minify/main.go", "\trLen, wLen := len(b), w.Len()\n\t_, err = io.Copy(fw, w)\n", "\trLen, wLen := len(b), w.Len()\n\tif bak != -1 {\n\t\tos.Remove(srcs[bak])\n\t\tbak = -1\n\t}\n\t_, err = io.Copy(fw, w)\n")),
- ("c20-no-restore-on-write-failure", ["C19"], sub("cmd/minify/main.go", "\t\t\t} else {\n\t\t\t\tif err = os.Remove(t.dst); err != nil {\n\t\t\t\t\tError.Println(err)\n\t\t\t\t\treturn false\n\t\t\t\t} else if err = os.Rename(srcs[i], t.dst); err != nil {\n\t\t\t\t\tError.Println(err)\n\t\t\t\t\treturn false\n\t\t\t\t}\n\t\t\t}\n", "\t\t\t} else {\n\t\t\t\tos.Remove(srcs[i])\n\t\t\t}\n")),
+ ("c20-no-restore-on-write-failure", ["C19", "C20"], sub("cmd/minify/main.go", "\t\t\t} else {\n\t\t\t\tif err = os.Remove(t.dst); err != nil {\n\t\t\t\t\tError.Println(err)\n\t\t\t\t\treturn false\n\t\t\t\t} else if err = os.Rename(srcs[i], t.dst); err != nil {\n\t\t\t\t\tError.Println(err)\n\t\t\t\t\treturn false\n\t\t\t\t}\n\t\t\t}\n", "\t\t\t} else {\n\t\t\t\tos.Remove(srcs[i])\n\t\t\t}\n")),
 ]
 
 def sh(cmd, cwd, **kw):
